@@ -143,6 +143,10 @@ func init() {
 				r := c.Rng
 				spc := genSpec(r, genOpts{maxParts: 2, maxFiles: 3, noFails: true, smallContent: true})
 				spc.Boundary = ""
+				if r.Chance(15) {
+					// a boundary chosen by the caller: it belongs to the outermost multipart of every render
+					spc.Boundary = []string{"user-boundary-123", "b", "=_caller_chosen_=", "with space inside"}[r.Intn(4)]
+				}
 				nontrivial := false
 				for j := range spc.Files {
 					spc.Files[j].Source = sources[r.Intn(len(sources))]
